@@ -53,7 +53,10 @@ class SimEngine(Engine):
         from ..sim.interp import Run
         prog = case if not self.guards else dict(case, guards=self.guards)
         res = Run(prog).execute()
-        return {"violations": res.violations, "labels": res.labels, "stats": res.stats,
+        viol = list(res.violations)
+        if res.lib_error:
+            viol.append({"props": [self.pid], "clause": "library/undocumented-exception-escaped", "detail": res.lib_error, "opno": -1})
+        return {"violations": viol, "labels": res.labels, "stats": res.stats,
                 "inconclusive": res.inconclusive, "error": res.error}
 
     def nontrivial(self, case: dict, out: dict) -> bool:
